@@ -36,6 +36,7 @@ import XotModel.Lemmas.ReachAxes
 import XotModel.Lemmas.ReachScope
 import XotModel.Lemmas.ReachRepresentable
 import XotModel.Lemmas.FparseHistIds
+import XotModel.Lemmas.FparseHistTables
 import XotModel.Lemmas.ParseWitness
 
 namespace XotModel.Props
@@ -2264,6 +2265,21 @@ theorem C04_parse_keeps_tables (m : Mode) (env : Env) (text : Str) (p : Parsed) 
 theorem C04_parse_then_edit_tables (env : Env) (henv : envOK env = true) (m : Mode) (text : Str)
     (cs : List Forest.XCall) : (PStore.init env).parsesOnOKTables (.parse m text :: cs.map .api) :=
   PStore.fph_parsesOnOKTables_parse_then_api (PStore.init env) henv m text cs
+
+/-- An extended API call only appends to the PREFIX table (`create_missing_prefixes`; every other call
+    leaves the tables alone), for all stores and arguments: well-formed tables stay well formed. -/
+theorem C04_api_keeps_tables (s : Store) (c : Forest.XCall) :
+    Repair.PrefixExt s.env (c.run s).1.env ∧ (envOK s.env = true → envOK (c.run s).1.env = true) :=
+  ⟨Forest.fpht_xcall_ext s c, fun h => Repair.envOK_ext (Forest.fpht_xcall_ext s c) h⟩
+
+/-- ⟦C04_reach_full_index_accepted⟧ From well-formed tables (`Xot::new()`), along every history in which no
+    parse is REJECTED (`PStore.noRejected`; any API calls, `create_missing_prefixes` included): the index
+    invariant with unique keys, and the tables are well formed at the end. -/
+theorem C04_reach_full_index_accepted (env : Env) (henv : envOK env = true) (cs : List PCall)
+    (hacc : (PStore.init env).noRejected cs) :
+    ((PStore.init env).run cs).idStore.Wf ∧ envOK ((PStore.init env).run cs).env = true := by
+  have h := PStore.fpht_parsesOnOKTables_of_noRejected cs (PStore.init env) henv hacc
+  exact ⟨C04_reach_full_index env cs h.1, h.2⟩
 
 /-- ⟦C04_full_embeds⟧ The two older history types are sub-histories: a history of API calls only is the
     extended history of `Store.xrun` (index untouched); a call of `IdOp` is the step `PCall.ofOp`; the parse
